@@ -80,6 +80,48 @@ def main() -> int:
         print(f"  weakened guard {bug:26s} -> {sorted(names)} {'caught' if hit else 'NOT CAUGHT'}")
         ok = ok and hit
         shutil.rmtree(d, ignore_errors=True)
+    # ---- the other self-contained models: must hold as configured
+    for mod in ("MC_Pool", "Deps", "Faults", "Variants", "Gen_Sites", "LinePipe", "XmlDocs", "MC_ExprRewrite"):
+        r = tlc.run_tlc(spec, mod, f"{mod}.cfg", timeout=900)
+        print(f"tlc  {'ok  ' if not r.violated else 'FAIL'} {mod}: {r.distinct} states, {r.wall_s:.1f}s {[v[1] for v in r.violated][:2]}")
+        ok = ok and not r.violated
+    # ---- non-vacuity of the rule transcription: the rules of the pinned commit must be refuted by the evaluator
+    base = (spec / "MC_ExprRewrite.cfg").read_text()
+    for vc, vi, depth in (("repaired", "pinned", 1), ("pinned", "repaired", 2)):
+        d = scratch("exprbug")
+        shutil.copy(spec / "MC_ExprRewrite.tla", d / "MC_ExprRewrite.tla")
+        (d / "MC_ExprRewrite.cfg").write_text(base.replace('VariantCombine = "repaired"', f'VariantCombine = "{vc}"').replace('VariantInvert = "repaired"', f'VariantInvert = "{vi}"').replace("Depth = 2", f"Depth = {depth}"))
+        r = tlc.run_tlc(d, "MC_ExprRewrite", "MC_ExprRewrite.cfg", timeout=900)
+        hit = any(v[1] == "C08_RewritePreservesBehaviour" for v in r.violated)
+        print(f"  pinned rules combine={vc} invert={vi}: {'refuted' if hit else 'NOT REFUTED'}")
+        ok = ok and hit
+        shutil.rmtree(d, ignore_errors=True)
+    # ---- the trace specification rejects a corrupted trace (binding bites)
+    from . import tracecheck
+
+    good = {"id": "selftest-good", "events": [
+        {"ev": "RunStart", "cfg": {"dryRun": False, "maxWorkers": 1, "output": True}, "files": ["f0"], "disk": {"f0": 0},
+         "expect": {"files": False, "mayChange": [], "mustChange": [], "sites": False, "siteMay": {}, "siteMust": {}, "exit": -1, "sel": False, "queues": [],
+                    "faults": False, "mustFail": [], "deps": False, "cand": [], "mustOne": False, "frozen": False}},
+        {"ev": "Selected", "ids": ["k"]}, {"ev": "CodemodStart", "c": "k"}, {"ev": "FileBegin", "f": "f0", "pre": 0},
+        {"ev": "FileEnd", "f": "f0", "o": "changed", "new": 1, "post": 1, "nchanges": 1, "nchangesets": 1, "linesOk": True, "descOk": True, "pathOk": True,
+         "sites": [], "clines": [], "unfixedAll": True, "findingsOk": True, "unfixedOk": True, "parsesOk": True, "namesOk": True, "bagOk": True},
+        {"ev": "Merge", "changed": ["f0"], "failed": []}, {"ev": "CodemodEnd", "c": "k", "err": "none"},
+        {"ev": "Deps", "c": "k", "store": "none", "new": 0, "post": 0, "othersUntouched": True, "err": "none", "shapeOk": True, "wanted": False, "parsesOk": True, "keptOk": True, "addedOk": True},
+        {"ev": "ReportBuilt", "results": [{"c": "k", "changed": ["f0"], "failed": []}], "schemaOk": True, "shapeOk": True},
+        {"ev": "ReportWritten", "rc": 0, "exists": True},
+        {"ev": "RunEnd", "exit": 0, "exc": "none", "disk": {"f0": 1}, "outsideUnchanged": True, "reportExists": True}]}
+    import copy
+
+    bad1 = copy.deepcopy(good); bad1["id"] = "selftest-disk"; bad1["events"][4]["post"] = 0          # diff reported, disk not changed
+    bad2 = copy.deepcopy(good); bad2["id"] = "selftest-dropped"; del bad2["events"][5]               # Merge event removed
+    bad3 = copy.deepcopy(good); bad3["id"] = "selftest-exit"; bad3["events"][-1]["exit"] = 1           # wrong exit status
+    verdicts, _ = tracecheck.validate([good, bad1, bad2, bad3])
+    want = {"selftest-good": False, "selftest-disk": True, "selftest-dropped": True, "selftest-exit": True}
+    for k, rejected in want.items():
+        got = bool(verdicts[k])
+        print(f"  trace {k}: {'rejected ' + str(sorted(verdicts[k])[:2]) if got else 'accepted'}")
+        ok = ok and got == rejected
     print(f"setup {'ok' if ok else 'FAILED'} in {time.time() - t0:.0f}s")
     return 0 if ok else 1
 
